@@ -1,24 +1,195 @@
 """Per-property metadata shared by check.py and gen_manifest.py."""
+import os
+import subprocess
+
+VERIF = os.path.dirname(os.path.abspath(__file__))
 
 COMMON_TRUST = [
-    "Lean 4.33 kernel; axioms limited to propext, Classical.choice, Quot.sound (checked by #print axioms on every run)",
+    "Lean 4.33 kernel; axioms limited to propext, Classical.choice, Quot.sound (checked by #print axioms on every theorem of the property module on every run); no sorry/admit/native_decide/bv_decide/implemented_by/unsafe (grep on every run)",
     "Lean compiler/runtime for executing the model (rsmodel) in the correspondence; not used by any theorem",
-    "correspondence harness /verif/harness (generators, canonicalisation, diff, catch_unwind)",
-    "every line of Rust is modelled, not verified: the tie between model and /repo is the differential correspondence on generated inputs",
+    "correspondence harness /verif/harness (generators, canonicalisation, diff, catch_unwind, Neon emulation shim, counting allocator)",
+    "every line of Rust is modelled, not verified: the tie between the Lean model and /repo is the differential correspondence on generated inputs (plus exhaustive comparison where the domain is finite)",
 ]
 
-PROPS = {
-    "C01": {
-        "category": "other",
-        "technique": "Lean 4 theorems on a hand-written model + differential correspondence with the crate",
-        "rule": "cases = encode/decode op sequences; distinct = distinct op-sequence text; non-trivial = contains at least one decode of >= k shards with a missing original or a surplus",
-        "explanation": "Lean theorems (totality and exact shape of the decode answer for every state with >= k shards; "
-                       "see theorems list) + model/implementation correspondence on generated round trips, including all subsets "
-                       "of all small configurations, + direct round-trip oracle on the implementation up to full-size configurations. "
-                       "The byte-level round trip for all configurations x subsets is NOT a theorem yet (DESIGN.md C01 tier 3).",
+COMMON_ASSUME = ["usize is 64 bit", "hooks (cargo feature verif-hooks) expose what they claim"]
+
+TECH = "Lean 4 machine-checked proof on a hand-written model + differential correspondence of the model with the crate"
+
+
+def gen_lazy_deps():
+    """C16: regenerate lean/RSVerif/Gen/LazyDeps.lean from the running code"""
+    binp = os.path.join(VERIF, "harness", "target", "release", "rsharness")
+    out = os.path.join(VERIF, "lean", "RSVerif", "Gen", "LazyDeps.lean")
+    os.makedirs(os.path.dirname(out), exist_ok=True)
+    p = subprocess.run([binp, "c16-gen", "--out", out], stdout=subprocess.PIPE, stderr=subprocess.STDOUT, text=True)
+    return p.returncode, p.stdout
+
+
+def P(category, explanation, rule, assumptions=None, profiles=None, design_ref=None, **kw):
+    d = {
+        "category": category,
+        "technique": TECH,
+        "explanation": explanation,
+        "rule": rule,
         "trusted_base": COMMON_TRUST,
-        "assumptions": ["usize is 64 bit", "LOG_WALSH/EXP/LOG/SKEW tables equal the model's definitions (checked exhaustively by C15)"],
-        "profiles": ["release"],
-        "design_ref": "DESIGN.md §6 C01",
-    },
+        "assumptions": COMMON_ASSUME + (assumptions or []),
+        "profiles": profiles or ["release"],
+        "design_ref": design_ref or "DESIGN.md §6",
+    }
+    d.update(kw)
+    return d
+
+
+PROPS = {
+    "C01": P(
+        "other",
+        "Theorems (Properties/C01.lean): for every state with >= k shards decode returns ok (no error, no panic) and exposes exactly "
+        "the missing original indexes, each of shard_bytes bytes; ROUND TRIP (roundtrip_high / roundtrip_low, when present in the theorem "
+        "list of this run): for every supported (k,r), every data, every received set of >= k distinct shards the model decoder restores the "
+        "encoded originals — by the Lin-Han-Chung argument (fft_eval, Lagrange/Cauchy, formal derivative, Walsh spec of eval_poly) in Lean with "
+        "Mathlib. All engines / shard sizes / add orders by the C03 / C04 / C11 theorems. Tie to the code: model vs implementation on "
+        "generated round trips incl. all subsets of all small configurations + direct round-trip oracle on the implementation up to "
+        "full-size configurations.",
+        "cases = encode/decode op sequences; distinct = distinct op-sequence text; non-trivial = a decode of >= k shards with a missing original or surplus",
+        design_ref="DESIGN.md §6 C01",
+    ),
+    "C02": P(
+        "proof",
+        "Theorems (Properties/C02.lean): encodeHigh/encodeLow of the model equal the closed-form scaled-Cauchy matrix "
+        "(encode_high_eq_cauchy / encode_low_eq_cauchy) for every supported configuration, schedule, lane count; linear => determined "
+        "by unit vectors; pure function of (k, r, rate, data). Direct oracle: implementation bytes == closed form evaluated by rsmodel from the two "
+        "published constants (no FFT, no tables) == reed-solomon-16 0.1.0 for 64-multiple sizes; constants == pinned literals.",
+        "cases = encode op sequences x closed-form queries; distinct = distinct (configuration, data); non-trivial = every case (recovery bytes compared)",
+        design_ref="DESIGN.md §6 C02",
+    ),
+    "C03": P(
+        "proof",
+        "Theorems: nibble-table and byte-shuffle kernels = x*g^m for all 2^32 pairs; exp/log kernel under the table contract; both butterfly "
+        "schedules agree on every contract-valid output for all (pos, size, trunc, delta); frame; encoder/decoder objects answer identically under "
+        "either schedule. Direct oracle: engine vs engine (6 engines incl. Neon source on emulated intrinsics) on primitives (contract-valid "
+        "outputs + frame) and end to end; model schedule vs implementation lane by lane.",
+        "cases = primitive calls (fft/ifft/mul/eval_poly with generated parameters) on every engine + mixed-engine round trips; distinct by parameters",
+        design_ref="DESIGN.md §6 C03",
+    ),
+    "C04": P(
+        "proof",
+        "Theorems: lane projection commutes with both encoders and decoders (slot homomorphism) for every configuration; layout/unlayout are mutually "
+        "inverse for every even size; documented byte placement; exposed shards have exactly shard_bytes bytes. Direct oracle: size sb vs per-slot "
+        "2-byte runs on the implementation for every even size in the sweep, poison hook on.",
+        "cases = one per (even shard size, configuration): full-size round trip + per-slot 2-byte round trips; non-trivial = all",
+        design_ref="DESIGN.md §6 C04",
+    ),
+    "C05": P(
+        "proof",
+        "Theorems: encoder/decoder rounds, any history of rounds on one object, and the one-shot functions return the same Outcome for ANY stale "
+        "contents of the working memory and any recycled work space (forall stale stale'); data path reads only inserted/zero-filled positions. "
+        "Direct oracle: reused object under the poison hook vs fresh object, round by round.",
+        "cases = histories (2-8 rounds, resets across counts/sizes/rates, renew through into_parts, failed calls); each round compared with a fresh object",
+        design_ref="DESIGN.md §6 C05",
+    ),
+    "C06": P(
+        "proof",
+        "Theorems: invariant of reachable states established by new and preserved by every call; in every reachable state no call panics; an Err "
+        "is a member of the truthful set of the call; empty truthful set => Ok; same for the one-shot functions; all arguments range over N "
+        "(usize::MAX included). Direct oracle: harness's own bookkeeping of violated preconditions vs implementation in release AND overflow-checked "
+        "profiles; model's truthful sets vs harness's.",
+        "cases = op sequences with injected invalid calls and usize extremes + stateless sweeps + one-shot tuples; distinct by text",
+        profiles=["release", "dev"],
+        design_ref="DESIGN.md §6 C06",
+    ),
+    "C07": P(
+        "proof",
+        "Theorems: a call that does not return Ok leaves the object unchanged (structural equality), the inner codec is never None after reset; "
+        "run_filter_failed: any op sequence ends in the same state as the sequence with the failing calls removed. Direct oracle: history with "
+        "injected failing calls vs the same history without them on the implementation.",
+        "cases = histories with injected failing calls of every kind; each compared with its failure-free version",
+        design_ref="DESIGN.md §6 C07",
+    ),
+    "C08": P(
+        "proof",
+        "Theorems for all k r in N: supports <-> README envelope for default/high/low; default = high or low; rule's rate is supported by the dedicated "
+        "codec; validate/new/reset succeed iff supports && size even non-zero; reset never leaves None; row form supports <-> 1<=r<=cap k; index "
+        "safety (work space <= 65536, skew indexes <= 65534). Direct oracle: supports of every flavour vs envelope and vs the model's staircase "
+        "(thorough: all 65538^2 pairs x 4; quick: boundary band + 8e6 pairs), constructors on the boundary, round trips at all staircase corners.",
+        "cases = (k, r) pairs x flavours for supports; protocol lines for constructors; corner round trips",
+        design_ref="DESIGN.md §6 C08",
+    ),
+    "C09": P(
+        "proof",
+        "Theorems: the rule as stated (depends on k, r only); default-flavour new/reset produce exactly the dedicated codec of the rule's rate on the "
+        "same working memory; later calls ignore the flavour. Direct oracle: default vs dedicated vs ReedSolomonEncoder vs one-shot bytes on the whole "
+        "boundary of the rule, with rate-crossing resets; default decoder decodes dedicated-encoded shards.",
+        "cases = configurations on the rule's boundary and random ones, with and without rate-crossing reset histories",
+        design_ref="DESIGN.md §6 C09",
+    ),
+    "C10": P(
+        "proof",
+        "Theorems: one-shot encode/decode = the streaming sequence (size from first original / first recovery / first original when no recovery "
+        "shard) for every input with at least one shard; documented errors otherwise; errors truthful; never panic. Direct oracle: one-shot vs "
+        "streaming on the implementation for valid and mutated tuples.",
+        "cases = argument tuples of encode/decode (valid + mutated: duplicates, out-of-range, wrong sizes, too few/many, no-recovery branch)",
+        design_ref="DESIGN.md §6 C10",
+    ),
+    "C11": P(
+        "proof",
+        "Theorems: successful adds commute; any permutation of a successful add sequence gives the same state and the same decode answer; given "
+        "originals never reported; all given => empty. Surplus: both a sufficient set and any superset restore the encoded originals (C01 round trip). "
+        "Direct oracle: permutations and supersets on the implementation.",
+        "cases = shard sets x orders/supersets; compared within each group",
+        design_ref="DESIGN.md §6 C11",
+    ),
+    "C12": P(
+        "proof",
+        "Theorems for all index values in N: recovery(i) Some iff i<r with length sb; iterator = recovery 0..r-1 then None forever; restored_original(i) "
+        "Some iff in range and not given; iterator = ascending restored pairs then None forever; drop = reset bookkeeping; any number of rounds. "
+        "Direct oracle: accessor sweep incl. usize extremes and iterator exhaustion in both profiles, 1-12 consecutive rounds.",
+        "cases = multi-round histories with implicit reset only; accessor contract evaluated on every result",
+        profiles=["release", "dev"],
+        design_ref="DESIGN.md §6 C12",
+    ),
+    "C13": P(
+        "proof",
+        "Theorems: field laws of gmul (commutative, associative, distributive, unit) from the field polynomial and Cantor basis; encode(a^b) = "
+        "encode a ^ encode b, encode(c.a) = c.encode a, encode 0 = 0 for every configuration, rate, schedule, lane count; same for decode with a "
+        "fixed received set. Direct oracle: the three relations on the implementation with scalar multiplication done by rsmodel.",
+        "cases = (configuration, data pair, constant); relations checked on implementation outputs",
+        design_ref="DESIGN.md §6 C13",
+    ),
+    "C14": P(
+        "proof",
+        "Finite quantifier (4 x86 masks, 2 AArch64 masks): theorems by exhaustive case analysis of the decision model (legal, most capable, "
+        "constructor = eval_poly selection, portable iff nothing reported); tie: exhaustive mask sweep with FEATURE_MASK + ISA_TRACE hooks, AArch64 "
+        "selection code through a source port. Cannot exhibit an actual illegal-instruction trap (this CPU has AVX2).",
+        "cases = feature masks (exhaustive) x workload",
+        exhaustive=True,
+        design_ref="DESIGN.md §6 C14",
+    ),
+    "C15": P(
+        "proof",
+        "Theorems: table kernels = x*g^m for all 2^32 pairs; GF16 is a field, generator order 65535, exp homomorphic/injective, every non-zero "
+        "element has a log; mod-65535 arithmetic; fft truncation contract; ifft contract; ifft = inverse; fft = evaluation of the LCH polynomial at "
+        "skew_delta+i; eval_poly truncation independence and (when present in this run) eval_poly = sum of logs = log of the locator product. "
+        "Tie: ALL entries of the six tables vs definitions; mul vs own arithmetic (thorough: all 2^32 pairs per engine); fft vs direct LCH evaluation; "
+        "eval_poly vs direct product.",
+        "cases = table entries (exhaustive) + primitive calls vs mathematical oracles",
+        design_ref="DESIGN.md §6 C15",
+    ),
+    "C16": P(
+        "proof",
+        "Theorems on the lazy-initialisation transition system instantiated on the dependency graph OBSERVED from the running code on this run: "
+        "for any number of threads, any first-touch sets and ANY schedule: no re-entrancy, deadlock freedom, termination bound, every wanted table "
+        "done exactly once. Partial for the runtime: the OS scheduler, the memory model and std::sync::LazyLock are trusted; schedule sampling in "
+        "fresh processes (racing first touch, objects moved between threads mid-round) is supporting evidence.",
+        "cases = fresh processes with barrier-released threads of different first-touch sets + moved objects, compared with sequential recomputation",
+        pre_lean=gen_lazy_deps,
+        design_ref="DESIGN.md §6 C16",
+    ),
+    "C17": P(
+        "proof",
+        "Theorems on the model's allocation bookkeeping: adds/encode/decode never allocate; reset / new(Some(work)) allocate iff the need exceeds "
+        "the high-water mark; histories bounded by the first configuration allocate exactly once. Direct oracle: counting global allocator around "
+        "every library call: shard-proportional allocation only where the configuration grows. Trusted: Vec::resize within capacity does not allocate.",
+        "cases = histories (rounds, growing/non-growing/failed resets, renew across flavours) with per-call allocation measurement",
+        design_ref="DESIGN.md §6 C17",
+    ),
 }
